@@ -268,3 +268,44 @@ func HarnessKeyDerivedHosts() {
 	c := preHash("GET", refFoldASCII(g), "/x", "q", tls2)
 	vAssert(b == c, "c02.host-case-not-shared")
 }
+
+// HarnessKeyEncodedPairs: request targets as they are on the wire, parsed the way net/http
+// parses a request line (decoded Path + RawPath).  A percent-encoded reserved character is a
+// different path from its decoded form (%2F is not a segment separator, %3F does not start
+// the query, %23 no fragment): such pairs never share an entry; pairs that differ only by
+// dot-segments or duplicate slashes still do.
+func HarnessKeyEncodedPairs() {
+	type pair struct {
+		a, b string
+		same bool
+	}
+	pairs := []pair{
+		{"/dir%2Ffile", "/dir/file", false},
+		{"/dir%2F", "/dir/", false},
+		{"/a%3Fb", "/a?b", false},
+		{"/a%3Fx=1", "/a?x=1", false},
+		{"/a%23b", "/a", false},
+		{"/a%2F..%2Fb", "/b", false},
+		{"/x/..%2Fy", "/y", false},
+		{"/dir%2Ffile?q=1", "/dir%2Ffile?q=2", false},
+		{"/a/./b", "/a/b", true},
+		{"/a//b", "/a/b", true},
+		{"/a%2Fb/../c", "/a%2Fb/../c", true},
+		{"/sp%20ace", "/sp%20ace", true},
+	}
+	p := pairs[symChoice(len(pairs))]
+	key := func(target string) string {
+		u, err := url.ParseRequestURI(target)
+		vAssert(err == nil, "c02.harness-target-does-not-parse")
+		r := &http.Request{Method: "GET", Host: "h", URL: u, RequestURI: target}
+		MakeFromRequest(r)
+		return vLastHashInput()
+	}
+	ka, kb := key(p.a), key(p.b)
+	vReach("compared")
+	if p.same {
+		vAssert(ka == kb, "c02.same-path-not-shared")
+	} else {
+		vAssert(ka != kb, "c02.different-paths-share-entry")
+	}
+}
